@@ -14,7 +14,7 @@ use serde_json::{json, Value};
 pub const META: Meta = Meta {
     id: "C04",
     level: "exploration",
-    rule: "Categorical product, enumerated: entity ETag {absent, strong, weak, strong containing ', '} x mtime {absent, whole second, sub-second} x If-Match and If-None-Match each in {absent} + 12 representative lists (crossed fully with each other) x If-Modified-Since, If-Unmodified-Since in {absent, LM-1s, LM, LM+1s} x {GET, HEAD}; every list of 1-3 tags over {own tag, W/-toggled, other strong, other weak, comma tag} and '*' crossed with all other dimensions singly; the tag-content phase (entity tags that are a list separator, end in backslashes, hold obs-text or U+FFFD, against every list of 1-3 tags over own / toggled / one-byte-off / comma-edged / backslash-ended neighbours x 4 separators); lists of up to 301 tags with the deciding tag last; proptest for 4-tag lists, random tag bytes, dates beyond 2^31 and 2^32 seconds, all list separators, obsolete date formats, an added Range header and other mtimes. Oracle: the statement evaluated literally by an independent precondition evaluator (own quoted-string-aware list splitter); 'continues' = same status/headers/body as the request without the four conditionals. Non-trivial = >= 2 conditional headers, or a list of >= 2 tags, or a sub-second mtime with a date header; distinct by fingerprint of case.",
+    rule: "Categorical product, enumerated: entity ETag {absent, strong, weak, strong containing ', '} x mtime {absent, whole second, sub-second} x If-Match and If-None-Match each in {absent} + 12 representative lists (crossed fully with each other) x If-Modified-Since, If-Unmodified-Since in {absent, LM-1s, LM, LM+1s, not a date (judged where the header is ignored)} x {GET, HEAD}; every list of 1-3 tags over {own tag, W/-toggled, other strong, other weak, comma tag} and '*' crossed with all other dimensions singly; the tag-content phase (entity tags that are a list separator, end in backslashes, hold obs-text or U+FFFD, against every list of 1-3 tags over own / toggled / one-byte-off / comma-edged / backslash-ended neighbours x 4 separators); lists of up to 301 tags with the deciding tag last; If-Match / If-None-Match repeated over 2-3 field lines (the answer must be that of the first line alone or of all lines joined); proptest for 4-tag lists, random tag bytes, dates beyond 2^31 and 2^32 seconds, all list separators, obsolete date formats, an added Range header and other mtimes. Oracle: the statement evaluated literally by an independent precondition evaluator (own quoted-string-aware list splitter); 'continues' = same status/headers/body as the request without the four conditionals. Non-trivial = >= 2 conditional headers, or a list of >= 2 tags, or a sub-second mtime with a date header; distinct by fingerprint of case.",
     assumptions: &[
         "validators are well-formed (the statement's premise); modification times are not in the future (C14 covers the clamp)",
         "HTTP-dates are parsed with the httpdate crate in the oracle as well",
@@ -127,12 +127,9 @@ pub fn evaluate(c: &Case) -> Option<Verdict> {
             _ => false,
         },
     };
-    if c.if_match.is_some() {
-        // ignored, but the premise still asks for well-formed values
-        if let Some(d) = &c.if_unmodified_since {
-            parse_date(&d.0)?;
-        }
-    }
+    // A date header the statement says is ignored (If-Unmodified-Since beside If-Match,
+    // If-Modified-Since beside If-None-Match, both when the entity has no modification time) is not
+    // looked at, so it need not be well formed either (RFC 7232 3.3 / 3.4: "MUST ignore").
     let nm = match &c.if_none_match {
         Some(inm) => {
             if inm.0 == b"*" {
@@ -147,9 +144,6 @@ pub fn evaluate(c: &Case) -> Option<Verdict> {
             _ => false,
         },
     };
-    if let Some(d) = &c.if_modified_since {
-        parse_date(&d.0)?;
-    }
     Some(if pf {
         Verdict::PreconditionFailed
     } else if nm {
@@ -304,6 +298,65 @@ pub fn check(c: &Case, acc: &mut Acc) -> Check {
     Ok(())
 }
 
+/// If-Match / If-None-Match sent as several field lines. The statement does not say how field lines
+/// combine: the answer must be the one the statement gives for the first line alone or the one it
+/// gives for all lines joined into one list (RFC 7230 3.2.2) - anything else is wrong under
+/// either reading.
+#[derive(Clone, Debug, Serialize, Deserialize)]
+pub struct MultiLine {
+    pub base: Case,
+    pub more_if_match: Vec<Bs>,
+    pub more_if_none_match: Vec<Bs>,
+}
+
+pub fn check_multiline(m: &MultiLine, acc: &mut Acc) -> Check {
+    let joined = |first: &Option<Bs>, more: &[Bs]| -> Option<Bs> {
+        let first = first.as_ref()?;
+        let mut v = first.0.clone();
+        for l in more {
+            v.extend_from_slice(b", ");
+            v.extend_from_slice(&l.0);
+        }
+        Some(Bs(v))
+    };
+    let mut all = m.base.clone();
+    all.if_match = joined(&m.base.if_match, &m.more_if_match);
+    all.if_none_match = joined(&m.base.if_none_match, &m.more_if_none_match);
+    let (Some(v1), Some(v2)) = (evaluate(&m.base), evaluate(&all)) else {
+        acc.count("multi-line:outside-premise");
+        return Ok(());
+    };
+    let (ent, mut req) = build(&m.base, true);
+    for l in &m.more_if_match {
+        req = req.with("if-match", &l.0);
+    }
+    for l in &m.more_if_none_match {
+        req = req.with("if-none-match", &l.0);
+    }
+    // keep the field lines of one name together and in order (first line first)
+    req.headers.sort_by_key(|(k, _)| k.clone());
+    let Ok(got) = serve_case(&ent, &req, DrainOpts { extra_polls: 0, ..Default::default() }) else {
+        acc.count("aborted-by-panic-in-serve(see C13)");
+        return Ok(());
+    };
+    let Ok(uncond) = run(&m.base, false) else { return Ok(()) };
+    let status_of = |v: Verdict| match v {
+        Verdict::PreconditionFailed => 412,
+        Verdict::NotModified => 304,
+        Verdict::Continue => uncond.head.status,
+    };
+    let (a, b) = (status_of(v1), status_of(v2));
+    let st = got.head.status;
+    ensure!(
+        st == a || st == b,
+        format!("multi-line:want-{a}-or-{b}-got-{st}"),
+        "the first field line alone gives {a}, all lines joined give {b}, serve answered {st}; {}",
+        serde_json::to_string(m).unwrap_or_default()
+    );
+    acc.note(&format!("multi-line:{}", if a == b { "readings-agree" } else { "readings-differ" }), true, fingerprint(m), || json!({"case": m, "status": st}));
+    Ok(())
+}
+
 // ------------------------------------------------------------------------------------------------
 
 fn etags() -> Vec<Option<Bs>> {
@@ -361,7 +414,8 @@ fn dates(m: Mtime) -> Vec<Option<Bs>> {
         Mtime::At(s, _) => s,
         _ => T0,
     };
-    vec![None, Some(Bs::s(&http_date(base - 1))), Some(Bs::s(&http_date(base))), Some(Bs::s(&http_date(base + 1)))]
+    // the last one is not an HTTP-date: judged only where the statement says the header is ignored
+    vec![None, Some(Bs::s(&http_date(base - 1))), Some(Bs::s(&http_date(base))), Some(Bs::s(&http_date(base + 1))), Some(Bs::s("Sun, 06 Nov 1994 08:49:37 GMT; length=10"))]
 }
 
 fn all_lists(etag: &Option<Bs>, max: usize) -> Vec<Bs> {
@@ -390,7 +444,9 @@ fn random_strategy() -> BoxedStrategy<Case> {
         .prop_flat_map(|(etag, mtime)| {
             let date = move || {
                 prop_oneof![
-                    3 => reqgen::date_value(mtime),
+                    12 => reqgen::date_value(mtime),
+                    // not an HTTP-date at all (judged only where the statement says the header is ignored)
+                    1 => proptest::sample::select(&["garbage", "", "0", "1994-11-06T08:49:37Z", "Sun, 06 Nov 1994 08:49:37 GMT; length=10", "Sun, 06 Nov 1994 08:49:37 +0000", "\u{e9}"][..]).prop_map(Bs::s),
                     1 => (0u8..4, 0usize..2).prop_map(move |(off, form)| {
                         let base = match mtime { Mtime::At(s, _) => s, _ => T0 };
                         let s = (base + off as u64).saturating_sub(1);
@@ -525,6 +581,38 @@ pub fn run_all(cx: &Cx) -> Acc {
             }
         }
     }));
+    // The header repeated over two or three field lines.
+    let line_units: Vec<Bs> = vec![quote(b"foo", false), quote(b"foo", true), quote(b"a, b", false)];
+    acc.merge(par_units(cx, "repeated-field-lines", &line_units, true, "If-Match / If-None-Match as 2-3 field lines over {own, W/-toggled, other strong, other weak, a two-tag list} x GET/HEAD x 3 entity tags: first-line answer or joined-list answer", |cx, etag, acc| {
+        let own = etag.0.clone();
+        let lines: Vec<Vec<u8>> = vec![own.clone(), reqgen::toggle_weak(&own), b"\"other\"".to_vec(), b"W/\"other\"".to_vec(), [b"\"x\", ".as_slice(), &own].concat()];
+        for a in &lines {
+            for b in &lines {
+                for c3 in std::iter::once(None).chain(lines.iter().map(Some)) {
+                    for as_im in [true, false] {
+                        for method in ["GET", "HEAD"] {
+                            let more: Vec<Bs> = std::iter::once(Bs(b.clone())).chain(c3.map(|x| Bs(x.clone()))).collect();
+                            let m = MultiLine {
+                                base: Case {
+                                    etag: Some(etag.clone()),
+                                    mtime: Mtime::At(T0, 0),
+                                    method: method.into(),
+                                    if_match: if as_im { Some(Bs(a.clone())) } else { None },
+                                    if_none_match: if as_im { None } else { Some(Bs(a.clone())) },
+                                    if_modified_since: None,
+                                    if_unmodified_since: None,
+                                    range: None,
+                                },
+                                more_if_match: if as_im { more.clone() } else { vec![] },
+                                more_if_none_match: if as_im { vec![] } else { more },
+                            };
+                            acc.run_case(cx, "repeated-field-lines", &m, |acc| check_multiline(&m, acc));
+                        }
+                    }
+                }
+            }
+        }
+    }));
     // List *length*: the deciding tag after k other tags.
     let ks: Vec<usize> = vec![0, 1, 2, 3, 5, 7, 8, 9, 15, 16, 17, 31, 32, 33, 63, 64, 65, 100, 255, 256, 300];
     acc.merge(par_units(cx, "long-tag-lists", &ks, true, "k other tags (strong, weak, comma-bearing) then {own, W/-toggled, one byte off, nothing} x 4 separators x {If-Match, If-None-Match} x 4 entity tags x GET/HEAD", |cx, &k, acc| {
@@ -571,7 +659,11 @@ pub fn run_all(cx: &Cx) -> Acc {
     acc
 }
 
-pub fn replay(_cx: &Cx, _phase: &str, case: &Value, acc: &mut Acc) -> Check {
+pub fn replay(_cx: &Cx, phase: &str, case: &Value, acc: &mut Acc) -> Check {
+    if phase.ends_with("repeated-field-lines") {
+        let m: MultiLine = serde_json::from_value(case.clone()).map_err(|e| Fail { sig: "replay-decode".into(), msg: e.to_string() })?;
+        return check_multiline(&m, acc);
+    }
     let c: Case = serde_json::from_value(case.clone()).map_err(|e| Fail {
         sig: "replay-decode".into(),
         msg: e.to_string(),
